@@ -5,6 +5,7 @@ CONSTANTS
   Epoch = 1
   InitNumber = 1
   InitSet = {1, 2, 3}
+  InitAnn = {1, 2, 4}
   InitSigner = 1
   MaxNumber = 9
   UpgradeSets = {}
